@@ -3,6 +3,7 @@ package props
 import (
 	"encoding/json"
 	"fmt"
+	"regexp"
 	"strings"
 	"time"
 
@@ -41,6 +42,8 @@ func dedupBases(d refmodel.Atoms) refmodel.Atoms {
 	return out
 }
 
+var c06LegacyRe = regexp.MustCompile(`\.\.>([0-9]+)`)
+
 func c06Eval(c c06Case) (ok bool, sig, detail string) {
 	switch c.Kind {
 	case "value":
@@ -71,19 +74,44 @@ func c06Eval(c c06Case) (ok bool, sig, detail string) {
 		if ok0 != ok1 || (ok0 && !d0.Equal(d1)) {
 			return false, "parse-denotation", fmt.Sprintf("%q parses to %s denoting %s, the value denotes %s", s, locdom.Encode(back), d1, d0)
 		}
-		// trailing text must not matter for the legacy spelling a..b>
-		if r, isR := loc.(gts.Ranged); isR && r.Partial.Partial3 {
-			legacy := strings.Replace(s, "..>", "..", 1) + ">"
-			var l2 gts.Location
-			var e2 error
-			if p, msg := engine.Safely(func() { l2, e2 = gts.AsLocation(legacy) }); p {
-				return false, "panic", "legacy spelling panics: " + msg
+		// the legacy spelling a..b> of a 3'-partial range, wherever the range stands in the location: each occurrence
+		// respelled on its own, and all of them together
+		if idxs := c06LegacyRe.FindAllStringSubmatchIndex(s, -1); len(idxs) > 0 {
+			respell := func(which int) string {
+				var sb strings.Builder
+				last := 0
+				for k, m := range idxs {
+					if which >= 0 && k != which {
+						continue
+					}
+					sb.WriteString(s[last:m[0]])
+					sb.WriteString("..")
+					sb.WriteString(s[m[2]:m[3]])
+					sb.WriteString(">")
+					last = m[1]
+				}
+				sb.WriteString(s[last:])
+				return sb.String()
 			}
-			if e2 != nil {
-				return false, "legacy-rejected", fmt.Sprintf("legacy spelling %q rejected: %v", legacy, e2)
+			var forms []string
+			for k := range idxs {
+				forms = append(forms, respell(k))
 			}
-			if d2, ok2 := refmodel.Den(l2); !ok2 || !d2.Equal(d0) || l2.String() != s {
-				return false, "legacy-denotation", fmt.Sprintf("legacy spelling %q parses to %s", legacy, printLoc(l2))
+			if len(idxs) > 1 {
+				forms = append(forms, respell(-1))
+			}
+			for _, legacy := range forms {
+				var l2 gts.Location
+				var e2 error
+				if p, msg := engine.Safely(func() { l2, e2 = gts.AsLocation(legacy) }); p {
+					return false, "panic", "legacy spelling panics: " + msg
+				}
+				if e2 != nil {
+					return false, "legacy-rejected", fmt.Sprintf("legacy spelling %q rejected: %v", legacy, e2)
+				}
+				if d2, ok2 := refmodel.Den(l2); !ok2 || !d2.Equal(d0) || l2.String() != s {
+					return false, "legacy-denotation", fmt.Sprintf("legacy spelling %q parses to %s", legacy, printLoc(l2))
+				}
 			}
 		}
 		return true, "", ""
@@ -427,7 +455,9 @@ func init() {
 					parts = append(parts, gts.Complemented{Location: c})
 				}
 				// multi-part parts under complement (Push re-joins complement(...) pairs)
-				for _, j := range []gts.Location{gts.Joined{gts.Range(0, 1), gts.Range(2, 3)}, gts.Joined{gts.Point(0), gts.Range(2, 4)}, gts.Ordered{gts.Point(1), gts.Point(3)}} {
+				for _, j := range []gts.Location{gts.Joined{gts.Range(0, 1), gts.Range(2, 3)}, gts.Joined{gts.Point(0), gts.Range(2, 4)}, gts.Ordered{gts.Point(1), gts.Point(3)},
+					// nested joins whose first part abuts a part that may stand before them
+					gts.Joined{gts.Range(1, 2), gts.Range(3, 4)}, gts.Joined{gts.Range(2, 3), gts.Point(0)}} {
 					parts = append(parts, gts.Complemented{Location: j}, j)
 				}
 				P := len(parts)
